@@ -4,6 +4,8 @@ One SMT query per program:  defined(s) /\ (final_IL(s) != final_C(s)).   unsat =
 initial states (within the unroll bound);  sat => model => concrete replay of both texts;  unknown =>
 inconclusive.  Also IL-vs-IL (two layouts / two histories) with the same machinery.
 """
+import hashlib
+import os
 import time
 import z3
 from .dom import Z3Dom, ConcDom, CBV
@@ -25,7 +27,7 @@ class Result:
     def as_dict(self):
         d = {"verdict": self.verdict, "detail": self.detail}
         d.update({k: v for k, v in self.info.items() if k in ("bad", "model", "contract_dependent", "time",
-                                                               "replayed", "il_final", "c_final", "max_trip")})
+                                                               "replayed", "il_final", "c_final", "max_trip", "xsolver")})
         return d
 
 
@@ -236,6 +238,46 @@ def _solve(s, timeout_ms):
     return str(r)
 
 
+# second solver: a seeded sample of the queries z3 answered `unsat` is re-decided by cvc5 from the SMT-LIB2 dump of the
+# very same assertion stack (solver in the trusted base -> diffed).  sat = the two solvers disagree (harness error).
+XSOLVER_EVERY = int(os.environ.get("VERIF_XSOLVER_EVERY", "12"))
+XSOLVER_TIMEOUT_MS = int(os.environ.get("VERIF_XSOLVER_TIMEOUT_MS", "8000"))
+
+
+def xsolver_selected(text):
+    if XSOLVER_EVERY <= 0:
+        return False
+    return int(hashlib.sha256(text.encode()).hexdigest()[:8], 16) % XSOLVER_EVERY == 0
+
+
+def cvc5_decide(smt2, timeout_ms=None):
+    """-> 'unsat' | 'sat' | 'unknown' | 'unsupported: ...' (dump uses a z3-only symbol / cvc5 unavailable)."""
+    try:
+        import cvc5
+    except Exception as e:  # noqa
+        return "unsupported: no cvc5 module"
+    try:
+        slv = cvc5.Solver()
+        slv.setOption("tlimit-per", str(timeout_ms or XSOLVER_TIMEOUT_MS))
+        slv.setLogic("ALL")
+        p = cvc5.InputParser(slv)
+        p.setStringInput(cvc5.InputLanguage.SMT_LIB_2_6, smt2, "q")
+        sm = p.getSymbolManager()
+        res = "unknown"
+        while True:
+            cmd = p.nextCommand()
+            if cmd.isNull():
+                break
+            o = str(cmd.invoke(slv, sm)).strip()
+            if o in ("sat", "unsat", "unknown"):
+                res = o
+            elif o.startswith("(error"):
+                return "unsupported: " + o[:120]
+        return res
+    except Exception as e:  # noqa
+        return "unsupported: " + str(e)[:120]
+
+
 def check_pair(ctext, iltext, il_subs, res, opts=None, optab=None):
     """C text vs IL text.  il_subs: name -> DEF text of compiled sub-routines; res: (sub_routines.json, macros.json)."""
     opts = opts or Opts()
@@ -317,8 +359,14 @@ def check_pair(ctext, iltext, il_subs, res, opts=None, optab=None):
         dt = time.time() - t0
         trip = max(ix.stats["max_trip"], cx.stats["max_trip"])
         if r == "unsat":
+            xs = None
+            if xsolver_selected(ctext + "\0" + iltext):
+                xs = cvc5_decide(s.to_smt2())
+                if xs == "sat":
+                    return Result("harness-error", f"z3 answers unsat but cvc5 answers sat on the same assertions "
+                                                   f"(abstract={abstract}): solver disagreement")
             return Result("equiv", f"{dt:.2f}s", time=dt, abstract=abstract, max_trip=trip,
-                          nodes=ix.stats["nodes"], ndefined=len(cx.defined))
+                          nodes=ix.stats["nodes"], ndefined=len(cx.defined), xsolver=xs)
         if r == "sat" and not abstract:
             m = s.model()
             bad = [n for n, d in diffs if z3.is_true(m.eval(d, model_completion=True))]
@@ -422,7 +470,13 @@ def check_il_pair(il_a, il_b, il_subs_a, il_subs_b, optab, opts=None, rename_tem
         r = _solve(s, opts.timeout_ms)
         dt = time.time() - t0
         if r == "unsat":
-            return Result("equiv", f"{dt:.2f}s", time=dt)
+            xs = None
+            if xsolver_selected(il_a + "\0" + il_b):
+                xs = cvc5_decide(s.to_smt2())
+                if xs == "sat":
+                    return Result("harness-error", f"z3 answers unsat but cvc5 answers sat on the same assertions "
+                                                   f"(abstract={abstract}): solver disagreement")
+            return Result("equiv", f"{dt:.2f}s", time=dt, xsolver=xs)
         if r == "sat" and not abstract:
             m = s.model()
             bad = [n for n, c in d if z3.is_true(m.eval(c, model_completion=True))]
